@@ -46,6 +46,11 @@ def cases(draw, max_n):
         # list) of labels that are restored again, via restore_ind_ or via a copy
         "restore": draw(st.lists(st.integers(0, 3), max_size=2, unique=True)) if removed and draw(st.integers(0, 2)) == 0 else [],
         "restore_via_copy": draw(st.booleans()),
+        # positions of labels that are restored and removed again the OTHER way
+        # (sliced <-> projected), after the tree was used once
+        "flip": draw(st.lists(st.integers(0, 3), max_size=2, unique=True)) if removed and draw(st.integers(0, 2)) == 0 else [],
+        "flip_value": draw(st.integers(0, 7)),
+        "use_before_flip": draw(st.booleans()),
         # number of emulated MPI ranks for the contract_mpi route (0 = skip)
         "mpi_size": draw(st.sampled_from([0, 0, 1, 2, 3, 4, 5, 6, 7])),
     }
@@ -95,6 +100,23 @@ def run_case(spec, sub=None):
         if not ok:
             return Outcome([f"restore_ind raised {r}"], False, ["error"])
     removed = [(ix, p) for ix, p in removed if ix not in back]
+    flips = [k_ for k_ in spec.get("flip", []) if k_ < len(removed)]
+    if flips:
+        if spec.get("use_before_flip"):
+            # the tree is used first (slice keys, a full contraction)
+            guarded(lambda: [tree.slice_key(i) for i in range(tree.nslices)])
+            guarded(tree.contract, arrays)
+        for k_ in flips:
+            ix, p = removed[k_]
+            newp = (spec.get("flip_value", 0) % sizes[ix]) if p is None else None
+            if newp is None and math.prod(sizes[j] for j, q_ in removed if q_ is None) * sizes[ix] > 96:
+                continue
+            ok, r = guarded(tree.restore_ind_, ix)
+            if ok:
+                ok, r = guarded(tree.remove_ind_, ix, project=newp)
+            if not ok:
+                return Outcome([f"restore_ind_ / remove_ind_ raised {r}"], False, ["error"])
+            removed[k_] = (ix, newp)
     # (the tree keeps sliced labels sorted: output ones first)
     proj = {ix: p for ix, p in removed if p is not None}
     sliced = [ix for ix, p in removed if p is None]
@@ -269,6 +291,8 @@ def run_case(spec, sub=None):
         tags.append("projected")
     if back:
         tags.append("some_restored")
+    if flips:
+        tags.append("sliced_projected_flipped")
     if spec.get("mpi_size") and sliced and not any(ix in output for ix, _ in removed):
         tags.append("mpi_route")
     if has_out:
